@@ -18,7 +18,7 @@ assert 'FAILED' in with_c, 'demo does not fail with the change'
 assert 'FAILED' not in without and 'ok' in without, 'demo does not pass without the change'
 meta = {
     'breaks_property': prop,
-    'origin': 'independent sub-agent, given only the property text (round 2: plus one sentence naming the kind of change round 1 used, to avoid a repeat) and a scratch worktree of /repo',
+    'origin': 'independent sub-agent, given only the property text (later rounds: plus one or two sentences naming the kind of change round 1 used, to avoid a repeat) and a scratch worktree of /repo',
     'change': change,
     'needs_to_manifest': needs,
     'confirmed_by_me': {
